@@ -52,8 +52,22 @@ func genC13(t *rapid.T) c13Case {
 		c.WriteHold = 30000
 		c.Q = max(c.Q, 2)
 	}
+	// commands without a timeout (OverTimeDuration < 0) come back only with an answer or when the connection ends; not
+	// in duplicate_key, where the owner stays until its calls have returned
+	noTimeout := 0
+	if c.Fault != "duplicate_key" {
+		noTimeout = rapid.SampledFrom([]int{0, 0, 1, 2}).Draw(t, "no_timeout_mode") // 1: some calls, 2: a burst of 8..9 calls, all without timeout
+	}
+	if noTimeout == 2 {
+		c.Q = rapid.IntRange(8, 9).Draw(t, "q_burst")
+	}
 	for i := 0; i < c.Q; i++ {
-		c.TimeoutMs = append(c.TimeoutMs, rapid.SampledFrom([]int{20, 50, 120, 400, 1000}).Draw(t, "timeout"))
+		to := rapid.SampledFrom([]int{20, 50, 120, 400, 1000}).Draw(t, "timeout")
+		// (close_at_timeout derives its disconnect instant from the first call's timeout: that one stays finite)
+		if (i > 0 || (noTimeout == 2 && c.Fault != "close_at_timeout")) && (noTimeout == 2 || (noTimeout == 1 && rapid.IntRange(0, 2).Draw(t, "no_timeout") == 0)) {
+			to = -1
+		}
+		c.TimeoutMs = append(c.TimeoutMs, to)
 		c.Stagger = append(c.Stagger, rapid.SampledFrom([]int{0, 0, 0, 50, 500}).Draw(t, "stagger"))
 	}
 	return c
@@ -178,12 +192,18 @@ func checkC13(c c13Case, _ *kit.Collector) kit.Result {
 		}
 	}
 	// every call returned exactly once, within timeout + slack
+	noTimeoutCalls := false
 	for i := 0; i < c.Q; i++ {
 		n := 0
 		for _, e := range h.Events {
 			if e.Kind == "call_result" && e.Call == i+1 {
 				n++
-				if e.DurUs/1000 > int64(c.TimeoutMs[i])+3000 {
+				limit := int64(c.TimeoutMs[i]) + 3000
+				if c.TimeoutMs[i] < 0 {
+					limit = 6000 // no timeout: released by the disconnect, which every fault scenario reaches within a second
+					noTimeoutCalls = true
+				}
+				if e.DurUs/1000 > limit {
 					res.Err = fmt.Errorf("SOFT call %d (timeout %d ms) returned only after %d ms", i+1, c.TimeoutMs[i], e.DurUs/1000)
 					return res
 				}
@@ -235,6 +255,12 @@ func checkC13(c c13Case, _ *kit.Collector) kit.Result {
 	res.Labels = []string{"fault_" + c.Fault, fmt.Sprintf("q_%d", c.Q), "close_" + c.CloseMode}
 	if c.SameKey {
 		res.Labels = append(res.Labels, "key_reused_after_fault")
+	}
+	if noTimeoutCalls {
+		res.Labels = append(res.Labels, "calls_without_timeout")
+	}
+	if c.Q >= 8 {
+		res.Labels = append(res.Labels, "q_8..9")
 	}
 	res.NT = c.Q >= 1
 	return res
